@@ -145,6 +145,9 @@ func randDoc(r *rand.Rand, nonEmptyLists bool) (M, *docGen) {
 		as := A{}
 		for i := 0; i < na; i++ {
 			u := fmt.Sprintf("https://aka.example/%d", i+1)
+			if i == 1 { // URI references that are not absolute URIs are also-known-as values too
+				u = []string{"identity2", "profile/alice", "#me", "?q=2", "//host.example/p", "urn:example:2", "mailto:a@example.com"}[r.Intn(7)]
+			}
 			g.akas = append(g.akas, u)
 			as = append(as, u)
 		}
@@ -244,6 +247,50 @@ func genC10(seed int64, tier string) []caseOut {
 	}
 	r := rand.New(rand.NewSource(seed))
 	var out []caseOut
+	emit := func(label string, doc M, patches A) {
+		res, ok, panicked, _ := implApply(doc, patches)
+		h := sha256.Sum256([]byte(fmt.Sprint(doc, patches)))
+		out = append(out, caseOut{
+			Coq:    fmt.Sprintf("(mk_c10 %s %s %s)", cObj(normJSON(doc).(map[string]interface{})), cJSON(normJSON(patches))[len("(JArr "):len(cJSON(normJSON(patches)))-1], coqOptObj(res, ok)),
+			Rec:    map[string]interface{}{"document": doc, "patches": patches, "impl_ok": ok, "impl_result": res, "impl_panicked": panicked},
+			Label:  label,
+			NonTri: fmt.Sprintf("%x", h[:8]),
+		})
+	}
+	// systematic part (independent of the seed): every non-empty subset of positions of a four-entry
+	// list removed at once (adjacent, first, last, all), for keys, services and also-known-as; an
+	// add that re-states the entry at each position; the same id twice in one add
+	{
+		fr := rand.New(rand.NewSource(7))
+		ids := []string{"k1", "k2", "k3", "k4"}
+		mkDoc := func() M {
+			ks, ss, as := A{}, A{}, A{}
+			for j, id := range ids {
+				ks = append(ks, validKey(fr, id))
+				ss = append(ss, validService(fr, "s"+id))
+				as = append(as, fmt.Sprintf("https://aka.example/%d", j))
+			}
+			return M{"publicKey": ks, "service": ss, "alsoKnownAs": as}
+		}
+		for mask := 1; mask < 16; mask++ {
+			var kid, sid, aid A
+			for j := 0; j < 4; j++ {
+				if mask&(1<<j) != 0 {
+					kid = append(kid, ids[j])
+					sid = append(sid, "s"+ids[j])
+					aid = append(aid, fmt.Sprintf("https://aka.example/%d", j))
+				}
+			}
+			emit(fmt.Sprintf("systematic,remove-keys-mask-%d", mask), mkDoc(), A{M{"action": "remove-public-keys", "ids": kid}})
+			emit(fmt.Sprintf("systematic,remove-services-mask-%d", mask), mkDoc(), A{M{"action": "remove-services", "ids": sid}})
+			emit(fmt.Sprintf("systematic,remove-aka-mask-%d", mask), mkDoc(), A{M{"action": "remove-also-known-as", "uris": aid}})
+		}
+		for j := 0; j < 4; j++ {
+			emit(fmt.Sprintf("systematic,restate-key-%d", j), mkDoc(), A{M{"action": "add-public-keys", "publicKeys": A{validKey(fr, ids[j]), validKey(fr, "new")}}})
+			emit(fmt.Sprintf("systematic,restate-service-%d", j), mkDoc(), A{M{"action": "add-services", "services": A{validService(fr, "s"+ids[j]), validService(fr, "snew")}}})
+			emit(fmt.Sprintf("systematic,restate-aka-%d", j), mkDoc(), A{M{"action": "add-also-known-as", "uris": A{fmt.Sprintf("https://aka.example/%d", j), "https://aka.example/new"}}})
+		}
+	}
 	for i := 0; i < n; i++ {
 		doc, g := randDoc(r, false)
 		label := "sequence"
@@ -314,14 +361,7 @@ func genC10(seed int64, tier string) []caseOut {
 				patches = A{M{"action": "add-also-known-as", "uris": A{"https://aka.example/9"}}}
 			}
 		}
-		res, ok, panicked, _ := implApply(doc, patches)
-		h := sha256.Sum256([]byte(fmt.Sprint(doc, patches)))
-		out = append(out, caseOut{
-			Coq:    fmt.Sprintf("(mk_c10 %s %s %s)", cObj(normJSON(doc).(map[string]interface{})), cJSON(normJSON(patches))[len("(JArr "):len(cJSON(normJSON(patches)))-1], coqOptObj(res, ok)),
-			Rec:    map[string]interface{}{"document": doc, "patches": patches, "impl_ok": ok, "impl_result": res, "impl_panicked": panicked},
-			Label:  label,
-			NonTri: fmt.Sprintf("%x", h[:8]),
-		})
+		emit(label, doc, patches)
 	}
 	return out
 }
@@ -337,6 +377,8 @@ func genC11(seed int64, tier string) []caseOut {
 		"/publicKey/-", "/service/-", "/publicKeyX", "/publicKe", "/servic", "/services", "/public~0Key", "/~1publicKey", "/public~1Key", "publicKey", "x/publicKey",
 		"x/service/0", "", "/", "/other", "/other/k", "/other/publicKey", "/arr/0", "/arr/-", "/arr/1", "//publicKey", "/publicKey/", " /publicKey", "/PUBLICKEY",
 		// control characters inside later tokens (a pattern match that stops at a line end would miss them)
+		// an escaped slash right after a protected name: one token ("service/0"), not a path into the member
+		"/service~10", "/publicKey~10~1type", "/service~1-", "/publicKey~1", "/service~10~1id", "/publicKey~10", "/service~01",
 		"/publicKey/0/controller\n", "/service/0/a\nb", "/publicKey/\n", "/service/0/\r\nx", "/publicKey/0/publicKeyJwk/x\n", "/service/0/serviceEndpoint\t", "/publicKey/0\u2028"}
 	for i := 0; i < rounds; i++ {
 		doc := M{"publicKey": A{validKey(r, "key1"), validKey(r, "key2")}, "service": A{validService(r, "svc1")},
@@ -380,6 +422,55 @@ func genC11(seed int64, tier string) []caseOut {
 						NonTri: fmt.Sprintf("%x", h[:8]),
 					})
 				}
+			}
+		}
+	}
+	// a validated ietf-json-patch followed by dedicated key / service actions that change nothing
+	// (unknown ids): documents without one or both protected members, sibling member names
+	{
+		fr := rand.New(rand.NewSource(11))
+		k1, k2, s1 := validKey(fr, "key1"), validKey(fr, "smuggled"), validService(fr, "svc1")
+		s2 := validService(fr, "smuggledsvc")
+		docs := []M{
+			{"service": A{s1}, "other": M{"k": 1.0}},
+			{"publicKey": A{k1}, "other": M{"k": 1.0}},
+			{"other": M{"k": 1.0}},
+			{"publicKey": A{k1}, "service": A{s1}},
+		}
+		ietf := func(ops ...interface{}) M { return M{"action": "ietf-json-patch", "patches": A(ops)} }
+		addOp := func(path string, v interface{}) M { return M{"op": "add", "path": path, "value": v} }
+		noKeys := M{"action": "remove-public-keys", "ids": A{"nosuchkey"}}
+		noSvcs := M{"action": "remove-services", "ids": A{"nosuchsvc"}}
+		seqs := []A{
+			{ietf(addOp("/publicKeys", A{k2})), noKeys},
+			{ietf(addOp("/services", A{s2})), noSvcs},
+			{ietf(addOp("/publicKeys", A{k2}), addOp("/services", A{s2})), noKeys, noSvcs},
+			{ietf(addOp("/publicKeys", A{k2})), noSvcs, noKeys, noSvcs},
+			{ietf(addOp("/publickey", A{k2})), noKeys},
+			{ietf(addOp("/PublicKey", A{k2}), addOp("/Service", A{s2})), noSvcs, noKeys},
+			{ietf(addOp("/verificationMethod", A{k2})), noKeys},
+			{ietf(addOp("/services", A{s2})), ietf(M{"op": "move", "from": "/services", "path": "/serviceList"}), noSvcs},
+		}
+		for di, doc := range docs {
+			for si, ps := range seqs {
+				allValid := true
+				for _, p := range ps {
+					if v, _ := implValidate(p.(M)); !v {
+						allValid = false
+					}
+				}
+				var res M
+				ok := false
+				if allValid {
+					res, ok, _, _ = implApply(doc, ps)
+				}
+				h := sha256.Sum256([]byte(fmt.Sprint("seq", di, si)))
+				out = append(out, caseOut{
+					Coq:    fmt.Sprintf("(mk_c11seq %s %s %s %s)", cObj(normJSON(doc).(map[string]interface{})), cJSON(normJSON(ps))[len("(JArr "):len(cJSON(normJSON(ps)))-1], cBool(allValid), coqOptObj(res, ok)),
+					Rec:    map[string]interface{}{"document": doc, "patches": ps, "impl_all_valid": allValid, "impl_applied": ok, "impl_result": res},
+					Label:  fmt.Sprintf("sequence:doc-%d:seq-%d", di, si),
+					NonTri: fmt.Sprintf("%x", h[:8]),
+				})
 			}
 		}
 	}
@@ -544,6 +635,11 @@ func genC14(seed int64, tier string) []caseOut {
 		add("ctor:add-aka", p, e)
 		p, e = patch.NewRemoveAlsoKnownAs(js(A{goodURIs[1]}))
 		add("ctor:remove-aka", p, e)
+		rel := []string{"identity1", "profile/alice", "#me", "?q=1", "//host.example/path", "urn:example:1"}[i%6]
+		p, e = patch.NewAddAlsoKnownAs(js(A{rel, goodURIs[0]}))
+		add("ctor:add-aka-relative-reference", p, e)
+		p, e = patch.NewRemoveAlsoKnownAs(js(A{rel}))
+		add("ctor:remove-aka-relative-reference", p, e)
 		p, e = patch.NewReplacePatch(js(M{"publicKeys": A{validKey(r, "k1")}, "services": A{validService(r, "s1")}}))
 		add("ctor:replace", p, e)
 		p, e = patch.NewJSONPatch(js(A{M{"op": "add", "path": "/x", "value": 1.0}}))
